@@ -121,7 +121,7 @@ package environment
 // after the transition's own check; the transition body runs only for an event that was not cancelled and any error it
 // returns cancels the event.
 //@ func (env *Environment) TryTransition(t Transition) (err error)
-//@   property C01
+//@   property C01 C03
 //@   ghostvar held bool = false
 //@   ghostvar willUnlock bool = false
 //@   ghostvar checked bool = false
@@ -136,6 +136,9 @@ package environment
 //@   on call (*fsm.FSM).Event : assert held && willUnlock && checked && !checkErr && !fired ; fired = true
 //@   ensures held && willUnlock
 //@   ensures checkErr ==> !fired && err != nil
+// C03: a request that finds another transition in flight waits for it and is then carried out - it is never turned away
+// (the GO_ERROR fired when a critical task dies during a transition must not be lost)
+//@   [C03] ensures checked && (!checkErr ==> fired)
 
 //@ closure (*Environment).handlerFunc #1
 //@   property C02 C09
